@@ -141,7 +141,7 @@ def gen_meas_diag(rng, n, qwc=True):
 
 def gen_cases(tier, seed):
     rng = random.Random(2000 + seed)
-    ncase = 420 if tier == "quick" else 9000
+    ncase = 420 if tier == "quick" else 5000
     cases = []
     for i in range(ncase):
         n = rng.choice([1, 2, 2, 3, 3, 3, 4])
@@ -162,18 +162,22 @@ def gen_cases(tier, seed):
             tr = ("snc+diag", rng.choice(STRATEGIES))
             meas = [m for m in gen_meas_split(rng, n, single_sum=rng.random() < 0.2)]
         elif r < 0.90:
-            tr = ("bexp",)
+            tr = (rng.choice(["bexp", "bexp", "bpar", "binp"]),)
             meas = gen_meas_split(rng, n)
             batch = True
+        elif r < 0.955:
+            tr = ("sign",)                      # sign_expand, analytic mode: one expval of a jointly measurable Hamiltonian
+            pw = [rng.choice([1, 2, 3]) for _ in range(n)]
+            meas = [{"k": "expval", "terms": rand_terms(rng, n, basis=pw if rng.random() < 0.8 else None), "style": rng.choice(["ham", "lc", "sum"])}]
         else:
             tr = ("sst+snc", rng.choice(STRATEGIES))
             meas = gen_meas_split(rng, n)
         if rng.random() < 0.08 and tr[0] in ("snc", "sst"):
             meas.append({"k": "var", "terms": rand_terms(rng, n), "style": "sum"})       # documented as unsupported: must raise
-        if batch or (rng.random() < 0.15 and tr[0] != "diag"):
+        if batch or (rng.random() < 0.15 and tr[0] not in ("diag", "sign")):
             cand = [k for k, g in enumerate(circ) if len(g["p"]) == 1 and not g["mods"] and g["g"] not in ("GlobalPhase",)]
             batch = (rng.choice(cand), [rng.randrange(16) for _ in range(rng.choice([2, 3]))]) if cand else None
-            if batch is None and tr[0] == "bexp":
+            if batch is None and tr[0] in ("bexp", "bpar", "binp"):
                 circ.append(devsim.random_gate(rng, n, M, ["r1"]))
                 batch = (len(circ) - 1, [rng.randrange(16) for _ in range(3)])
         cases.append({"id": i, "n": n, "circ": circ, "labels": devsim.labels_for(rng, n), "meas": meas, "tr": list(tr), "batch": batch,
@@ -323,6 +327,17 @@ def transform_of(tr):
         return chain(lambda t: qp.transforms.split_to_single_terms(t), _snc(tr[1]))
     if tr[0] == "bexp":
         return lambda t: qp.transforms.broadcast_expand(t)
+    if tr[0] == "sign":
+        return lambda t: qp.transforms.sign_expand(t)
+    if tr[0] in ("bpar", "binp"):
+        def f(t):
+            pars = t.get_parameters(trainable_only=False)
+            idx = [i for i, p_ in enumerate(pars) if np.ndim(p_) == 1 and len(p_) == t.batch_size and np.asarray(p_).dtype.kind == "f"]
+            if tr[0] == "bpar":
+                return qp.batch_params(qp.tape.QuantumScript(t.operations, t.measurements, trainable_params=idx))
+            rest = [i for i in range(len(pars)) if i not in idx]
+            return qp.batch_input(qp.tape.QuantumScript(t.operations, t.measurements, trainable_params=rest), argnum=idx)
+        return f
     raise KeyError(tr)
 
 
@@ -388,7 +403,7 @@ def run(tier, seed):
         st["by_transform"][key] = st["by_transform"].get(key, 0) + 1
         rel = promised_relation(c, tape)
         may_reject = (c["tr"][0] in ("snc", "sst", "sst+snc", "snc+diag") and any(m["k"] == "var" and len(m["terms"]) > 1 for m in c["meas"])) or \
-                     (c["tr"][0] == "diag" and not qwc_letters(c)) or (c["tr"][0] == "snc+diag" and rel == "commuting")
+                     (c["tr"][0] in ("diag", "sign") and not qwc_letters(c)) or (c["tr"][0] == "snc+diag" and rel == "commuting")
         before = (mstr(tape.operations), mstr(tape.measurements))
         st["calls"] += 1
         try:
@@ -456,12 +471,17 @@ def run(tier, seed):
         except Exception as e:  # noqa: BLE001
             agg.add(f"{key}:postprocessing-exception:{type(e).__name__}", f"post-processing raised {type(e).__name__}: {e}; {shown}", {"case": c, **shown})
             continue
-        ok, why, idx = ma.same(got, exp, len(w["in_desc"]))
+        ok, why, idx = ma.same(got, exp, len(w["in_desc"]), tol=1e-6 if c["tr"][0] == "sign" else 1e-8)   # sign_expand builds its observables by a float eigendecomposition
         n_cmp += len(w["in_desc"])
         if not ok:
             mk = c["meas"][idx]["k"] if idx < len(c["meas"]) else "?"
             if idx < len(c["meas"]) and any(not any(w_) and co != 1.0 for co, w_ in c["meas"][idx].get("terms", [])):
                 mk += ":identity-term-with-coefficient"
+            if c["tr"][0] == "sign":
+                from .. import bridge
+                mat = sum(co * bridge.pauli_word(list(w_)) for co, w_ in c["meas"][0]["terms"])
+                ev_ = np.linalg.eigvalsh(mat)
+                mk += ":asymmetric-spectrum" if abs(ev_[0] + ev_[-1]) > 1e-9 else ":symmetric-spectrum"
             agg.add(f"{key}:{why}:{mk}", f"{key}: measurement {idx} ({shown['measurements'][idx] if idx < len(shown['measurements']) else '?'}): "
                     f"post(exact results of outputs) = {_show(got, idx, len(w['in_desc']))}, exact result of the input = {_show(exp, idx, len(w['in_desc']))}; {shown}",
                     {"case": c, **shown})
@@ -490,13 +510,7 @@ def run(tier, seed):
     for rec, meta in controls:
         traces.append(rec)
         tmeta.append(meta)
-    wd = lib.workdir(PID, "trace")
-    (wd / "traces.json").write_text(json.dumps(traces))
-    r = lib.run_tlc("Trace_MeasSplit", lib.cfg(constants={"M": M, "NTRACES": len(traces)}), wd, env={"TRACE_FILE": str(wd / "traces.json")})
-    lib.require_ok(r, "Trace_MeasSplit")
-    verd = {t[1]: (t[2], t[3]) for t in r.tuples if t[0] == "V"}
-    if len(verd) != len(traces):
-        raise lib.MachineryError(f"verdicts are not total: {len(verd)} of {len(traces)}")
+    verd, r = ma.validate_traces(PID, "Trace_MeasSplit", traces, M)
     vc, rejected_controls = {}, {}
     for i, meta in enumerate(tmeta):
         cl, idx = verd[i + 1]
@@ -520,7 +534,7 @@ def run(tier, seed):
         raise lib.MachineryError(f"negative controls not all exercised: {sorted(rejected_controls)}")
     if vc.get("ok", 0) < 50 or st["expected_rejections"] == 0 or st["multi_tape_batches"] < 20:
         raise lib.MachineryError(f"vacuity: {vc} {st}")
-    cov = {"states": stats["distinct"] + r.distinct, "transitions": stats["generated"] + r.generated,
+    cov = {"states": stats["distinct"] + r["distinct"], "transitions": stats["generated"] + r["generated"],
            "traces_validated_against_impl": len(traces) - len(controls), "evaluations": n_cmp, "distinct_nontrivial": len(nontriv),
            "rule": "distinct (transform, input measurement list, output measurement lists) triples whose recombined exact result was compared "
                    "with the exact input result and agreed",
@@ -530,7 +544,7 @@ def run(tier, seed):
     return CheckResult(coverage=cov, violations=agg.violations(), assumptions=[
         "angles on the lattice 4*pi/16, dyadic coefficients; circuits and measurement lists are sampled (seeded), not exhaustive",
         "values of Hermitian / Projector / Hadamard observables and float comparison (1e-8) are computed with numpy from TLC's exact state",
-        "sample / counts post-processing, sign_expand, batch_params and batch_input are not covered (partial)",
+        "sample / counts post-processing and the circuit mode of sign_expand are not covered (partial); batch_params / batch_input are applied to tapes with one broadcast parameter",
         "the exact clause Recombine treats the post-processing function as the affine map measured by probing it on basis vectors "
         "(affinity is confirmed numerically on the actual results)"])
 
